@@ -53,8 +53,11 @@ JudgeLed(c, colors, s, e, k, rgb, sn) ==
         sounding == {s.trk[x][2] : x \in DOMAIN s.trk}
         extCh == {q[1] : q \in {x \in e : x[2] = p}}
     IN IF p \notin 0..127 THEN <<(IF Near(rgb, colors.unavailable) THEN {} ELSE {"C17_NoteKeys"}), <<>>>>
-       ELSE IF p \in sounding /\ Near(rgb, colors.active) THEN <<{}, <<>>>>
-       ELSE IF s.chan \in extCh /\ Near(rgb, colors.active_external) THEN <<{}, <<>>>>
+       \* precedence, in the order the statement names them: sounding from the keyboard - the active colour;
+       \* otherwise sounding on MIDI input on the current channel - the external colour; otherwise the colour of
+       \* one of the channels it sounds on (which one of several is not demanded)
+       ELSE IF p \in sounding THEN <<(IF Near(rgb, colors.active) THEN {} ELSE {"C17_NoteKeys"}), <<>>>>
+       ELSE IF s.chan \in extCh THEN <<(IF Near(rgb, colors.active_external) THEN {} ELSE {"C17_NoteKeys"}), <<>>>>
        ELSE IF extCh \ {s.chan} # {} /\ (\E ch \in extCh \ {s.chan} : <<"palette", ch>> \in DOMAIN sn /\ sn[<<"palette", ch>>] = rgb)
               THEN <<{}, <<>>>>
        ELSE IF extCh \ {s.chan} # {} /\ (\E ch \in extCh \ {s.chan} : <<"palette", ch>> \notin DOMAIN sn)
